@@ -4159,3 +4159,18 @@ pub mod verif_hooks_occ {
     v.errors.len()
   }
 }
+
+/// Verification hooks (third batch): lets a harness that calls a single visitor
+/// callback put the validator into the state the enclosing callback would have set.
+/// Compiled only with `--cfg anweiss_cddl_verif`.
+#[cfg(anweiss_cddl_verif)]
+#[doc(hidden)]
+#[allow(missing_docs)]
+pub mod verif_hooks_state {
+  use super::JSONValidator;
+  use crate::token::ControlOperator;
+
+  pub fn set_ctrl(v: &mut JSONValidator<'_>, ctrl: Option<ControlOperator>) {
+    v.state.ctrl = ctrl;
+  }
+}
